@@ -273,7 +273,7 @@ def _interp_cases(draw):
                "(AccSignal) == array level, bitwise; inputs unchanged",
         require={"refine": 0.25, "decimate": 0.25, "near-int": 0.10, "dt==target": 0.03, "even-truncated": 0.04, "k>4": 0.15,
                  "q-near-int-below": 0.01, "q-near-int-above": 0.01},
-        min_nontrivial=0.5)
+        min_nontrivial=0.4)
 def interp_rule(case, ctx):
     spec = case["rec"]
     a0 = gen.build(spec)
